@@ -3,9 +3,11 @@ C07 — a program started through tiny-std's entry point observes exactly the ar
 block and auxiliary values the kernel passed, in every link mode; environment lookup returns the value of
 the first entry whose name equals the key exactly.
 
-Models: Model/Start.lean (resolve, from_auxv, relocate_symbols, args iterators — AS WRITTEN) and
-Model/Env.lean (var / var_unix after the `fix:` commit; `Env.Legacy` = before).  Helper lemmas:
-Proofs/StartLemmas.lean, Proofs/EnvLemmas.lean.  Observed only (no theorem): the `_start` assembly, the vDSO
+Models: Model/Start.lean (resolve, from_auxv, relocate_symbols, `ArgsOs::next` / `Args::next` — AS WRITTEN) and
+Model/Env.lean (var / var_unix after the `fix:` commit; `Env.Legacy` = before; the argument iterators as
+stateful objects: `core`'s default `nth` / `skip` / `step_by` / `fold` / `count` / `last` / `size_hint` bodies
+over that `next`, and `len` as overridden).  Helper lemmas: Proofs/StartLemmas.lean, Proofs/EnvLemmas.lean,
+Proofs/ArgsIterLemmas.lean.  Observed only (no theorem): the `_start` assembly, the vDSO
 symbol lookup and the vDSO clock's agreement with the system call (checks/c07.py).
 
 The three link modes differ, for this code, only in the gate of `relocate_symbols`:
@@ -15,6 +17,7 @@ The three link modes differ, for this code, only in the gate of `relocate_symbol
 -/
 import TinyVerif.Proofs.StartLemmas
 import TinyVerif.Proofs.EnvLemmas
+import TinyVerif.Proofs.ArgsIterLemmas
 namespace TinyVerif.C07
 open TinyVerif.Start TinyVerif.Env
 
@@ -182,6 +185,117 @@ theorem relocate_symbols_static_pie (m : Mem) (dynv fuel : Nat) (aux : AuxValues
     findBaseLoop_eq m dynv aux.at_phent hs aux.at_phdr hat hlt hva, R.bind_ok, R.bind_ok,
     initFromDynv_eq m dynv fuel dyn hw hne hf, R.bind_ok]
   cases firstDyn hs <;> rfl
+
+/-! ## the argument iterators as stateful objects: every method, in any order -/
+
+/-- `ArgsOs::next` at ANY position `i` of the iterator: the `i`-th argument passed and one step forward, `None`
+and no step once all `argc` have been yielded -/
+theorem args_next_at {m : Mem} {sp : Nat} {argv env : List Bytes} {aux : List (Nat × Nat)} {aptrs eptrs : List Nat}
+    (h : StackAt m sp argv env aux aptrs eptrs) (fuel : Nat) (hf : ∀ s ∈ argv, s.length < fuel) (i : Nat) :
+    let e := envOf sp argv.length
+    ArgsOs.next m e fuel ⟨i, argv.length⟩ = .ok (argv[i]?, ⟨if i < argv.length then i + 1 else i, argv.length⟩) ∧
+    Args.next m e fuel ⟨i, argv.length⟩ =
+      .ok ((argv.map asStr)[i]?, ⟨if i < argv.length then i + 1 else i, argv.length⟩) :=
+  ⟨next_spec_os h fuel hf i, next_spec_args (next_spec_os h fuel hf) i⟩
+
+/-- `nth(k)` / `skip(k).next()` (the default bodies: `k ×` next, then next) on an iterator that has already
+yielded `i` arguments answer the argument at OFFSET `k` FROM THE CURRENT POSITION, `argv[i + k]`, and leave the
+iterator behind it (`None` and exhausted when there is none) — never an argument already yielded -/
+theorem args_nth_relative {m : Mem} {sp : Nat} {argv env : List Bytes} {aux : List (Nat × Nat)} {aptrs eptrs : List Nat}
+    (h : StackAt m sp argv env aux aptrs eptrs) (fuel : Nat) (hf : ∀ s ∈ argv, s.length < fuel)
+    (k i : Nat) (hi : i ≤ argv.length) :
+    let e := envOf sp argv.length
+    let after : ArgsOs := ⟨min (i + k + 1) argv.length, argv.length⟩
+    nthWith (ArgsOs.next m e fuel) k ⟨i, argv.length⟩ = .ok (argv[i + k]?, after) ∧
+    skipNextWith (ArgsOs.next m e fuel) k ⟨i, argv.length⟩ = .ok (argv[i + k]?, after) ∧
+    nthWith (Args.next m e fuel) k ⟨i, argv.length⟩ = .ok ((argv.map asStr)[i + k]?, after) ∧
+    skipNextWith (Args.next m e fuel) k ⟨i, argv.length⟩ = .ok ((argv.map asStr)[i + k]?, after) := by
+  have H := next_spec_os h fuel hf
+  have H' := next_spec_args H
+  exact ⟨nthWith_eq H rfl k i hi, skipNextWith_eq H rfl k i hi,
+    nthWith_eq H' (by simp) k i hi, skipNextWith_eq H' (by simp) k i hi⟩
+
+/-- EVERY script of calls (`next`, `nth(k)`, `skip(k).next()`, `step_by(k)` polled to the end, `len`, `size_hint`,
+`count`, `last`, `fold`; any order, any length, any `k`, `step_by(0)` excluded because `core` panics on it) on ONE
+fresh `args_os()` / `args()` iterator answers exactly what a cursor over the argument vector passed answers
+(`specRunW`), with `len()` = argc and `size_hint()` = (0, None) AS WRITTEN.  No fault, no panic; `argc + 1`
+polls suffice for every loop. -/
+theorem iter_ops_as_written {m : Mem} {sp : Nat} {argv env : List Bytes} {aux : List (Nat × Nat)} {aptrs eptrs : List Nat}
+    (h : StackAt m sp argv env aux aptrs eptrs) (fuel k : Nat) (hf : ∀ s ∈ argv, s.length < fuel) (hk : argv.length < k)
+    (ops : List ItOp) (hops : ∀ op ∈ ops, op.wf) :
+    let e := envOf sp argv.length
+    runOps (ArgsOs.next m e fuel) k ops (argsOs e) = .ok (specRunW argv ops 0) ∧
+    runOps (Args.next m e fuel) k ops (argsOs e) = .ok (specRunW (argv.map asStr) ops 0) := by
+  have H := next_spec_os h fuel hf
+  have H' := next_spec_args H
+  exact ⟨runOps_eq H rfl k hk ops 0 hops (Nat.zero_le _), runOps_eq H' (by simp) k hk ops 0 hops (Nat.zero_le _)⟩
+
+/-- THE PROPERTY for the iterators, `_partial` = the calls whose answers are arguments (everything but `len` /
+`size_hint`, see `len_not_remaining_witness`): every such script answers exactly what std's contract demands of
+an iterator over the argument vector passed — what a plain slice iterator over `argv` answers (`specRun`): each
+call is relative to the current position, no argument is yielded twice, none is skipped that was not asked to be,
+never more than argc items. -/
+theorem iter_ops_exact_partial {m : Mem} {sp : Nat} {argv env : List Bytes} {aux : List (Nat × Nat)} {aptrs eptrs : List Nat}
+    (h : StackAt m sp argv env aux aptrs eptrs) (fuel k : Nat) (hf : ∀ s ∈ argv, s.length < fuel) (hk : argv.length < k)
+    (ops : List ItOp) (hops : ∀ op ∈ ops, op.yields) :
+    let e := envOf sp argv.length
+    runOps (ArgsOs.next m e fuel) k ops (argsOs e) = .ok (specRun argv ops 0) ∧
+    runOps (Args.next m e fuel) k ops (argsOs e) = .ok (specRun (argv.map asStr) ops 0) := by
+  have hw := iter_ops_as_written h fuel k hf hk ops (fun op ho => ItOp.yields_wf (hops op ho))
+  rw [specRunW_of_yields argv ops 0 hops, specRunW_of_yields (argv.map asStr) ops 0 hops] at hw
+  exact hw
+
+/-- on a FRESH iterator `len()` is the number of arguments that remain (= argc) -/
+theorem len_fresh_exact (argv : List Bytes) : (specStepW argv .len 0).1 = (specStep argv .len 0).1 := rfl
+
+/-- the iterators are fused and bounded: once the position is argc every further call answers `None` / nothing
+and stays there, whatever the script did before -/
+theorem iter_exhausted_stays {m : Mem} {sp : Nat} {argv env : List Bytes} {aux : List (Nat × Nat)} {aptrs eptrs : List Nat}
+    (h : StackAt m sp argv env aux aptrs eptrs) (fuel k : Nat) (hf : ∀ s ∈ argv, s.length < fuel) (hk : argv.length < k)
+    (op : ItOp) (hop : op.yields) :
+    ∃ out, itStep (ArgsOs.next m (envOf sp argv.length) fuel) k op ⟨argv.length, argv.length⟩ = .ok (out, ⟨argv.length, argv.length⟩) ∧
+      (out = .item none ∨ out = .items [] ∨ out = .num 0) := by
+  have H := next_spec_os h fuel hf
+  have := itStep_eq H rfl k hk op (ItOp.yields_wf hop) argv.length (Nat.le_refl _)
+  rw [specStepW_of_yields argv hop] at this
+  have h2 : (specStep argv op argv.length).2 = argv.length := by
+    cases op <;> simp only [specStep] <;> omega
+  refine ⟨(specStep argv op argv.length).1, ?_, ?_⟩
+  · rw [this, h2]
+  · cases op <;> simp_all [specStep, ItOp.yields, everyKth_nil]
+
+/-- FINDING (code as written, not repaired here): `ExactSizeIterator::len` is `num_args` whatever has been yielded.
+Three arguments, `next()` then `len()`: the code answers 3, two arguments remain. `size_hint()` is (0, None): a
+valid bound, not the exact one `ExactSizeIterator` promises. -/
+theorem len_not_remaining_witness :
+    let argv : List Bytes := [[97], [], [255, 254]]
+    let m := memOf 4096 (buildStack 4096 argv [] [])
+    let e := envOf 4096 3
+    runOps (ArgsOs.next m e 50) 5 [.next, .len, .sizeHint] (argsOs e) = .ok [.item (some [97]), .num 3, .hint 0 none] ∧
+    specRun argv [.next, .len, .sizeHint] 0 = [.item (some [97]), .num 2, .hint 2 (some 2)] := by decide
+
+/-- the model computes, on a concrete image, what the theorems say: after `next()`, `nth(1)` is the argument two
+further on (not `argv[1]`), `skip(0).next()` the one after it, `step_by(2)` from position 1 yields `argv[1], argv[3]`,
+`count()` after two `next()` is argc - 2, and `args()` reports UTF-8 validity per element -/
+example :
+    let argv : List Bytes := [[112], [97], [], [255, 254], [98]]
+    let m := memOf 4096 (buildStack 4096 argv [[65, 61, 98]] [(11, 7)])
+    let e := envOf 4096 5
+    runOps (ArgsOs.next m e 50) 7 [.next, .nth 1, .skip 0, .next, .next] (argsOs e) =
+      .ok [.item (some [112]), .item (some []), .item (some [255, 254]), .item (some [98]), .item none] ∧
+    runOps (ArgsOs.next m e 50) 7 [.next, .stepBy 2, .next] (argsOs e) =
+      .ok [.item (some [112]), .items [[97], [255, 254]], .item none] ∧
+    runOps (ArgsOs.next m e 50) 7 [.next, .next, .count] (argsOs e) = .ok [.item (some [112]), .item (some [97]), .num 3] ∧
+    runOps (Args.next m e 50) 7 [.nth 3, .last] (argsOs e) = .ok [.item (some .err), .item (some (.ok [98]))] ∧
+    runOps (ArgsOs.next m e 50) 7 [.nth 18446744073709551615, .next] (argsOs e) = .ok [.item none, .item none] := by
+  decide
+
+/-- `specRun` tells a relative `nth` from an ABSOLUTE-index one (`self.ind = min(n, num_args); self.next()`, which
+would answer `argv[1]` = [97] to `next(); nth(1)` and `argv[0]` again to `next(); nth(0)`): the arguments demand
+`argv[2]` and `argv[1]` -/
+example : specRun ([[112], [97], [98]] : List Bytes) [.next, .nth 1] 0 = [.item (some [112]), .item (some [98])] ∧
+    specRun ([[112], [97], [98]] : List Bytes) [.next, .nth 0] 0 = [.item (some [112]), .item (some [97])] := by
+  decide
 
 /-! ## environment lookup -/
 
